@@ -34,9 +34,11 @@ RELEASE = ('mzd_free_window', 'mzd_free')
 BIT_READERS = {'mzd_read_bit': 1, 'mzd_read_bits': None, 'mzd_read_bits_int': None}   # value: fixed width or None = 4th argument
 HEADER_FIELDS = ('nrows', 'ncols', 'width', 'rowstride', 'flags', 'offset_vector', 'row_offset', 'high_bitmask', 'blockrows_log', 'padding')
 # quantities that are at least zero wherever they are used in a coordinate (one reason each)
-NONNEG = {
-    ('_mzd_trsm_upper_left_russian', 'k'): 'k is clamped to 2..8 when chosen here and is a table width (>= 1) when passed by a caller; negative k indexes nothing',
+# (function, parameter index): quantities that are at least zero wherever they are used in a coordinate
+NONNEG_PARAMS = {
+    ('_mzd_trsm_upper_left_russian', 2): 'the table width k is clamped to 2..8 when chosen here and is >= 1 when passed by a caller; negative k indexes nothing',
 }
+NONNEG = {}
 
 
 def _reads_data(prog, g, idx, depth=0, seen=None):
@@ -143,6 +145,9 @@ def rule_T1(ctx, prog, label, rule='T1'):
         if f is None or f.body is None:
             raise AnalysisBroken('T1: family member %s is missing' % fname)
         fs = FuncSym(f, max_depth=6)
+        for (fn_, pi_), why_ in NONNEG_PARAMS.items():
+            if fn_ == fname and pi_ < len(f.params):
+                NONNEG[(fname, f.params[pi_].name)] = why_
         muts = {}
         for n in f.body.walk():
             if n.kind == 'CompoundAssignOperator' or (n.kind == 'UnaryOperator' and n.op in ('++', '--')) or (n.kind == 'BinaryOperator' and n.op == '='):
